@@ -30,6 +30,10 @@
      all_closed st = true          every module was processed (C01's theorem).
    The correspondence check reports how many generated runs satisfy leak = false / all_closed (evidence: distribution).
 
+   The tie to the source (section 7): harness/gen/gen_c04_code.py translates, on every run, the CURRENT bodies of
+   Module._localNameToFullName, Class._localNameToFullName, Class.find and Documentable.expandName into the language
+   of Model/NamesIR.v (Gen/NamesCode.v); C04_code_*_is_model prove that interpreting them IS the model, for all inputs.
+
    What is NOT proved (tied by the correspondence check and the oracle only):
    - runs in which a re-export move FIRES are outside the whole-run theorems (the ghost flag is raised by the move;
      projects may list imported names in __all__, the guard is about the run).  What is proved about such runs:
@@ -42,7 +46,7 @@
    - classes have at most one base in the model; import cycles and rebinding are outside the quantifier. *)
 From Coq Require Import NArith List Bool Arith.
 From PydoctorVerif Require Import Base.ImportSyntax Model.Names Spec.PyImport Proofs.NamesProofs Proofs.NamesInvProofs
-     Proofs.NamesRunProofs.
+     Proofs.NamesRunProofs Model.NamesIR Gen.NamesCode Proofs.NamesIRProofs.
 Import ListNotations.
 
 (* 1. pydoctor's relative-import arithmetic (level-1 steps up from a package, level steps from a module, "too
@@ -221,6 +225,52 @@ Theorem C04_reexport_keeps_soundness_partial :
     (forall o, In o (objs st) -> o_id o = o_id oldpar -> o_path o = D) ->
     sound_objs P (reparent st ob cur n).
 Proof. intros P WF. exact (reexport_sound P WF). Qed.
+
+(* 7. The model IS the code.  The four bodies below are translated statement by statement from the CURRENT
+   pydoctor/model.py (fail-closed translator; Gen/NamesCode.v is regenerated on every run) and interpreted by
+   Model/NamesIR.v; primitives (dict lookups, fullName, parent, objForFullName, isinstance, mro) and the calls to the
+   OTHER translated methods are the stated assumptions of Model/NamesIR.v.  A behavioural edit of a body breaks the
+   corresponding obligation; a behaviour-preserving rewrite still proves (symbolic execution + loop rules). *)
+Theorem C04_code_module_l2f_is_model : forall st o n fuel cl cf cm,
+  is_modkind (o_kind o) = true ->
+  run_body st o (VStr [n]) cl cf cm code_module_l2f fuel = RReturn (VStr (l2f st o n)).
+Proof. exact code_module_l2f_is_model. Qed.
+
+Theorem C04_code_class_l2f_is_model : forall st o par n fuel cf cm,
+  o_kind o = KClass -> parent_of st o = Some par ->
+  run_body st o (VStr [n]) (l2f st) cf cm code_class_l2f fuel = RReturn (VStr (l2f st o n)).
+Proof. exact code_class_l2f_is_model. Qed.
+
+Theorem C04_code_find_is_model : forall st o n f fuel cl cf,
+  run_body st o (VStr [n]) cl cf (mro_chain f st) code_find fuel = RReturn (of_opt_obj (find_member f st o n)).
+Proof. exact code_find_is_model. Qed.
+
+Theorem C04_code_expand_name_is_model : forall st ctx dotted fuel,
+  dotted <> [] -> (length dotted <= fuel)%nat ->
+  run_body st ctx (VStr dotted) (l2f st) (cfind st) (fun _ => []) code_expand_name fuel
+  = RReturn (VStr (expand_name st ctx dotted)).
+Proof. exact code_expand_name_is_model. Qed.
+
+(* ... hence the property-level theorem holds of the TRANSLATED expandName: what the code returns for a name Python
+   binds in a namespace, looked up in allobjects (resolveName = objForFullName(expandName(name)), pinned by the
+   translator), is the Python object or nothing *)
+Theorem C04_code_bound_name_sound :
+  forall P order m qual n v ctx q o,
+    wf_project P ->
+    let st := final_state P order in
+    leak st = false -> all_closed st = true ->
+    py_ns P m qual n v ->
+    obj_for st (m ++ qual) = Some ctx ->
+    run_body st ctx (VStr [n]) (l2f st) (cfind st) (fun _ => []) code_expand_name 1 = RReturn (VStr q) ->
+    obj_for st q = Some o ->
+    denotes o v.
+Proof.
+  intros P order m qual n v ctx q o WF st Hl Hc Hns Hctx Hrun Hq.
+  rewrite (code_expand_name_is_model st ctx [n] 1) in Hrun; [|discriminate|cbn; auto].
+  inversion Hrun; subst q.
+  apply (C04_bound_name_sound P order m qual n v o WF Hl Hc Hns).
+  unfold resolve_in. fold st. rewrite Hctx. exact Hq.
+Qed.
 
 (* ------------------------------------------------------------------------------------------------------------
    Witnesses.  Atoms: even = public identifier, odd = identifier starting with '_'. *)
